@@ -57,7 +57,7 @@ m("refuse-clear-before-refusal", "REFUSE-PURE", ["C08", "C07"], "break", BR,
   "binaryReader.StepIn|refusal", True, "a refused StepIn wipes the annotations")
 
 # ---- ERR-DROP / ERR-SWAP
-m("errdrop-writefieldname", "ERR-DROP", ["C19", "C07", "C06"], "break", TW,
+m("errdrop-writefieldname", "ERR-DROP", ["C19"], "break", TW,
   "\tif err := writeSymbol(*name, w.out); err != nil {\n\t\treturn err\n\t}\n\n\tsep := \":\"",
   "\twriteSymbol(*name, w.out)\n\n\tsep := \":\"", "writeFieldName", True, "write error discarded")
 m("errswap-readn-ioerror", "ERR-SWAP", ["C19", "C07", "C06"], "break", BS,
@@ -74,7 +74,7 @@ m("nilacc-readsymbols-deref", "NIL-ACC", ["C06", "C10"], "break", RL,
   "\t\t\tsyms = append(syms, *sym)", "readSymbols", True, "null.string in symbols list crashes")
 m("nilacc-decode-drop-isnull", "NIL-ACC", ["C06", "C17"], "break", UM,
   "func (d *Decoder) decode() (interface{}, error) {\n\tif d.r.IsNull() {\n\t\treturn nil, nil\n\t}\n",
-  "func (d *Decoder) decode() (interface{}, error) {\n", "decode|", False, "typed null reaches *val")
+  "func (d *Decoder) decode() (interface{}, error) {\n", "decode|", True, "typed null reaches *val")
 m("nilacc-decodeto-null-fallthrough", "NIL-ACC", ["C06", "C17"], "break", UM,
   "\t\tif v.Type().Kind() == reflect.Struct {\n\t\t\treturn d.attachAnnotations(v)\n\t\t}\n\t\treturn nil\n\t}",
   "\t\tif v.Type().Kind() == reflect.Struct {\n\t\t\treturn d.attachAnnotations(v)\n\t\t}\n\t}", "decode", False,
@@ -83,7 +83,7 @@ m("nilacc-refactor-readsymbols", "NIL-ACC", ["C06", "C10"], "refactor", RL,
   "\t\t\tif sym != nil {\n\t\t\t\tsyms = append(syms, *sym)\n\t\t\t} else {\n\t\t\t\tsyms = append(syms, \"\")\n\t\t\t}",
   "\t\t\tif sym == nil {\n\t\t\t\tsyms = append(syms, \"\")\n\t\t\t\tcontinue\n\t\t\t}\n\t\t\tsyms = append(syms, *sym)", "", True,
   "guard spelled as early continue")
-m("nilfield-isionsymboltable", "NIL-FIELD", ["C06", "C17"], "break", BR,
+m("nilfield-isionsymboltable", "NIL-FIELD", ["C06"], "break", BR,
   "len(as) > 0 && as[0].Text != nil && *as[0].Text == \"$ion_symbol_table\"",
   "len(as) > 0 && *as[0].Text == \"$ion_symbol_table\"", "isIonSymbolTable", True, "annotation $0 on a top-level struct crashes")
 
@@ -109,22 +109,22 @@ m("nondet-build-from-map-order", "OWN-NONDET", ["C18", "C12"], "break", ST,
   "symbol order taken from map iteration")
 
 # ---- TAB
-m("typecode-null-clob", "TAB-TYPECODE", ["C03", "C01", "C04"], "break", CO,
+m("typecode-null-clob", "TAB-TYPECODE", ["C01", "C04"], "break", CO,
   "\tret[ClobType] = 0x9F", "\tret[ClobType] = 0xAF", "binaryNulls[ClobType]", True, "null.clob written as null.blob")
 m("typecode-reader-clob-as-blob", "TAB-TYPECODE", ["C03", "C01"], "break", BR,
-  "\tcase bitcodeClob:\n\t\tr.valueType = ClobType", "\tcase bitcodeClob:\n\t\tr.valueType = BlobType", "value type for bitcodeClob", False,
+  "\tcase bitcodeClob:\n\t\tr.valueType = ClobType", "\tcase bitcodeClob:\n\t\tr.valueType = BlobType", "value type for bitcodeClob", True,
   "clob decoded as blob")
 m("typecode-float-size-2", "TAB-TYPECODE", ["C03"], "break", BS,
   "\tcase 0:\n\t\tret = 0\n\n\tcase 4:", "\tcase 0, 2:\n\t\tret = 0\n\n\tcase 4:", "accepted float sizes", False, "2-byte float accepted")
 m("nibble-drop-bool-case", "TAB-NIBBLE", ["C03"], "break", BS,
   "\tif code == bitcodeFalse {\n\t\t// Booleans keep their value, not a length, in the low nibble and have no body.\n\t\tlength = 0\n\t}\n\n",
   "", "bitcodeFalse", True, "annotated true rejected")
-m("nullkw-writer-sexp", "TAB-NULLKW", ["C01", "C02", "C04"], "break", CO,
+m("nullkw-writer-sexp", "TAB-NULLKW", ["C01", "C04"], "break", CO,
   "\tret[SexpType] = \"null.sexp\"", "\tret[SexpType] = \"null.list\"", "textNulls[SexpType]", True, "null.sexp written as null.list")
 m("nullkw-reader-sexp", "TAB-NULLKW", ["C01", "C02"], "break", TR,
   "\tcase \"sexp\":\n\t\treturn SexpType, nil", "\tcase \"sexp\":\n\t\treturn ListType, nil", "null.sexp", False, "null.sexp read as null.list")
 m("escape-reader-v", "TAB-ESCAPE", ["C01", "C02"], "break", TK,
-  "\tcase 'v':\n\t\treturn '\\v', nil", "\tcase 'v':\n\t\treturn '\\f', nil", "reader: \\v", True, "\\v decoded as form feed")
+  "\tcase 'v':\n\t\treturn '\\v', nil", "\tcase 'v':\n\t\treturn '\\f', nil", "reader: \\v||writer: byte 0x0B", True, "\\v decoded as form feed")
 m("escape-writer-v", "TAB-ESCAPE", ["C01", "C04"], "break", TU,
   "\tcase '\\v':\n\t\treturn writeRawString(\"\\\\v\", out)", "\tcase '\\v':\n\t\treturn writeRawString(\"\\\\?\", out)", "0x0B", False,
   "vertical tab written as \\? which reads back as '?'")
@@ -139,8 +139,103 @@ m("keyword-nan-unquoted", "TAB-KEYWORD", ["C01", "C04"], "break", TU,
   "symbol 'nan' written unquoted reads back as a float")
 m("lstfields-maxid-renamed", "TAB-LSTFIELDS", ["C11", "C10"], "break", ST,
   "st, err = NewSymbolToken(t, \"max_id\")", "st, err = NewSymbolToken(t, \"maxid\")", "max", True, "imports written without a max_id the reader understands")
-m("token-skip-arm-removed", "TAB-TOKEN", ["C08", "C02"], "break", SK,
+m("token-skip-arm-removed", "TAB-TOKEN", ["C08"], "break", SK,
   "\tcase tokenLongString:\n\t\tc, err = t.skipLongString()\n", "", "tokenLongString", True, "skipping a long string panics")
+
+# ---- controls added with the final registry (ORD engine, side-restricted rules)
+PR = "cmd/ion-go/process.go"
+m("errdrop-tokenizer-doublecolon", "ERR-DROP", ["C07", "C19"], "break", TK,
+  "\t\tif c2 == ':' {\n\t\t\t_, err = t.read()\n\t\t\tif err != nil {\n\t\t\t\treturn err\n\t\t\t}\n\t\t\treturn t.ok(tokenDoubleColon, false)",
+  "\t\tif c2 == ':' {\n\t\t\tt.read()\n\t\t\treturn t.ok(tokenDoubleColon, false)", "tokenizer).Next", True,
+  "a read error while consuming '::' is discarded")
+m("token-value-arm-removed", "TAB-TOKEN", ["C02"], "break", TR,
+  "\tcase tokenBinary, tokenHex, tokenNumber, tokenFloatInf, tokenFloatMinusInf:", "\tcase tokenBinary, tokenHex, tokenNumber, tokenFloatInf:", "tokenFloatMinusInf", True, "-inf has no value arm any more")
+m("nilfield-decodesymbolto-text", "NIL-FIELD", ["C17", "C06"], "break", UM,
+  "\t\t\tif val.Text == nil {\n\t\t\t\treturn fmt.Errorf(\"ion: cannot decode symbol $%v with unknown text to %v\", val.LocalSID, v.Type().String())\n\t\t\t}\n\t\t\tv.SetString(*val.Text)",
+  "\t\t\tv.SetString(*val.Text)", "decodeSymbolTo", True, "$0 into a string dereferences nil text")
+m("nilacc-cmd-null-guard-removed", "NIL-ACC", ["C20"], "break", PR,
+  "\t\t\tif err != nil {\n\t\t\t\treturn p.error(write, err)\n\t\t\t}\n\t\t\tcontinue\n\t\t}\n",
+  "\t\t\tif err != nil {\n\t\t\t\treturn p.error(write, err)\n\t\t\t}\n\t\t}\n", "process", True,
+  "F22 returns: typed nulls fall through to the scalar arms, which dereference the nil accessor result")
+m("ordvalue-writevalue-no-endvalue", "ORD-VALUE", ["C12", "C01", "C04"], "break", BW,
+  "\tif w.err = w.write(val); w.err != nil {\n\t\treturn w.err\n\t}\n\n\tw.err = w.endValue()\n\treturn w.err\n}",
+  "\tif w.err = w.write(val); w.err != nil {\n\t\treturn w.err\n\t}\n\n\treturn w.err\n}", "binaryWriter.writeValue", True,
+  "an annotation wrapper opened by beginValue is never closed")
+m("lstfirst-emit-before-lst", "ORD-LSTFIRST", ["C01", "C04", "C11"], "break", BW,
+  "\t\tif w.err = w.writeLST(lst); w.err != nil {\n\t\t\treturn w.err\n\t\t}\n\t\tif w.err = w.emit(seq); w.err != nil {\n\t\t\treturn w.err\n\t\t}",
+  "\t\tif w.err = w.emit(seq); w.err != nil {\n\t\t\treturn w.err\n\t\t}\n\t\tif w.err = w.writeLST(lst); w.err != nil {\n\t\t\treturn w.err\n\t\t}", "binaryWriter).Finish", True,
+  "values emitted before the symbol table that defines their IDs")
+m("rearm-finish-no-push", "ORD-REARM", ["C12"], "break", BW,
+  "\t\tw.bufs.push(&datagram{})\n\t\tw.lstb = NewSymbolTableBuilder(lst.Imports()...)\n", "", "Finish", True,
+  "F4 returns: the writer is not re-armed after Finish")
+m("popguard-endvalue", "ORD-POPGUARD", ["C12"], "break", BW,
+  "\tseq := w.bufs.peek()\n\tif seq != nil {\n\t\tif c, ok := seq.(*container); ok && c.code == 0xE0 {\n\t\t\tw.bufs.pop()\n\t\t\treturn w.emit(seq)\n\t\t}\n\t}\n\treturn nil",
+  "\tseq := w.bufs.peek()\n\tif c, ok := seq.(*container); !ok || c.code == 0xE0 {\n\t\tw.bufs.pop()\n\t\treturn w.emit(seq)\n\t}\n\treturn nil", "endValue", True,
+  "pop without knowing the stack is non-empty")
+m("popguard-reader-stepout", "ORD-POPGUARD", ["C06"], "break", TR,
+  "\tctx := t.ctx.peek()\n\tif ctx == ctxAtTopLevel {\n\t\treturn &UsageError{\"Reader.StepOut\", \"cannot step out of top-level datagram\"}\n\t}\n\tctype := ctxToContainerType(ctx)",
+  "\tctx := t.ctx.peek()\n\tctype := ctxToContainerType(ctx)", "textReader).StepOut", True,
+  "StepOut at top level pops an empty context stack")
+m("bvmreset-keep-table", "ORD-BVMRESET", ["C10"], "break", BR,
+  "\t\tcase 0:\n\t\t\tr.lst = V1SystemSymbolTable\n\t\t\treturn nil", "\t\tcase 0:\n\t\t\treturn nil", "readBVM", True,
+  "a version marker keeps the previous symbol table")
+m("lsthide-surface-table", "ORD-LSTHIDE", ["C10"], "break", BR,
+  "\t\t\tif err == nil {\n\t\t\t\tr.lst = st\n\t\t\t\treturn false, nil\n\t\t\t}\n\t\t\treturn false, err",
+  "\t\t\tif err == nil {\n\t\t\t\tr.lst = st\n\t\t\t\treturn true, nil\n\t\t\t}\n\t\t\treturn false, err", "binaryReader).next", True,
+  "a consumed symbol table struct is reported as a user value")
+m("eofdepth-clean-end-in-container", "ORD-EOFDEPTH", ["C07"], "break", BS,
+  "\t\tif !b.stack.empty() {\n\t\t\t// The input ended before the container we are in did.\n\t\t\treturn &UnexpectedEOFError{b.pos}\n\t\t}\n", "", "bitstream).Next", True,
+  "F14 returns: end of input inside a container is a clean end")
+m("dangle-eof-with-annotations", "ORD-DANGLE", ["C07"], "break", TR,
+  "\t\t\tif len(t.annotations) > 0 {\n\t\t\t\t// Annotations must be followed by a value.\n\t\t\t\treturn false, &UnexpectedEOFError{t.tok.Pos() - 1}\n\t\t\t}\n", "", "nextBeforeTypeAnnotations", True,
+  "F15 returns: 'a::' at end of input accepted")
+m("dangle-bracket-with-annotations", "ORD-DANGLE", ["C07"], "break", TR,
+  "\t\tif t.ctx.peek() == ctxInList && len(t.annotations) == 0 {", "\t\tif t.ctx.peek() == ctxInList {", "nextBeforeTypeAnnotations", False,
+  "[a::] accepted")
+m("sortmap-marshaltext-unsorted", "ORD-SORTMAP", ["C16"], "break", MS,
+  "\tw := NewTextWriterOpts(&buf, TextWriterQuietFinish)\n\te := Encoder{\n\t\tw:    w,\n\t\topts: EncodeSortMaps,\n\t}",
+  "\tw := NewTextWriterOpts(&buf, TextWriterQuietFinish)\n\te := Encoder{\n\t\tw:    w,\n\t\topts: 0,\n\t}", "MarshalText", True,
+  "MarshalText output follows Go's random map order")
+m("sortmap-encodemap-no-sort", "ORD-SORTMAP", ["C16"], "break", MS,
+  "\tif m.opts&EncodeSortMaps != 0 {\n\t\tsort.Slice(keys, func(i, j int) bool { return keys[i].s < keys[j].s })\n\t}\n", "\t_ = sort.Slice\n", "encodeMap", False,
+  "keys never sorted")
+m("firstwins-add-overwrites", "ORD-FIRSTWINS", ["C09", "C11"], "break", ST,
+  "\tif id, ok := b.FindByName(symbol); ok {\n\t\treturn id, false\n\t}\n\n\tb.symbols = append(b.symbols, symbol)",
+  "\tb.symbols = append(b.symbols, symbol)", "symbolTableBuilder).Add", True,
+  "known text gets a new ID and the index is overwritten")
+m("sidbound-no-maxid-test", "ORD-SIDBOUND", ["C09"], "break", "ion/symboltoken.go",
+  "\tif sid < 0 || uint64(sid) > symbolTable.MaxID() {", "\tif sid < 0 {", "NewSymbolTokenBySID", True,
+  "IDs above MaxID are not rejected")
+m("noinput-decode-nil-at-end", "ORD-NOINPUT", ["C17"], "break", UM,
+  "\tif !d.r.Next() {\n\t\tif d.r.Err() != nil {\n\t\t\treturn nil, d.r.Err()\n\t\t}\n\t\treturn nil, ErrNoInput\n\t}\n\n\treturn d.decode()",
+  "\tif !d.r.Next() {\n\t\tif d.r.Err() != nil {\n\t\t\treturn nil, d.r.Err()\n\t\t}\n\t\treturn nil, nil\n\t}\n\n\treturn d.decode()", "Decoder.Decode", True,
+  "end of stream reported as a nil value with nil error")
+m("nondet-quick-c16", "OWN-NONDET", ["C16"], "break", MS,
+  "\tkeys := keysFor(v)\n\tif m.opts&EncodeSortMaps != 0 {", "\tkeys := keysFor(v)\n\tif time.Now().UnixNano()%2 == 0 && m.opts&EncodeSortMaps != 0 {", "time.Now", True,
+  "output depends on the clock")
+
+# ---- behaviour-preserving rewrites of ORD sites (must stay silent)
+m("sidbound-refactor-two-ifs", "ORD-SIDBOUND", ["C09"], "refactor", "ion/symboltoken.go",
+  "\tif sid < 0 || uint64(sid) > symbolTable.MaxID() {\n\t\treturn SymbolToken{}, fmt.Errorf(\"ion: Symbol token not found for SID '%v' in symbol table %v\", sid, symbolTable)\n\t}",
+  "\tif sid < 0 {\n\t\treturn SymbolToken{}, fmt.Errorf(\"ion: Symbol token not found for SID '%v' in symbol table %v\", sid, symbolTable)\n\t}\n\tif max := symbolTable.MaxID(); uint64(sid) > max {\n\t\treturn SymbolToken{}, fmt.Errorf(\"ion: Symbol token not found for SID '%v' in symbol table %v\", sid, symbolTable)\n\t}",
+  "", False, "bounds test split in two")
+m("noinput-refactor-positive-first", "ORD-NOINPUT", ["C17"], "refactor", UM,
+  "\tif !d.r.Next() {\n\t\tif d.r.Err() != nil {\n\t\t\treturn nil, d.r.Err()\n\t\t}\n\t\treturn nil, ErrNoInput\n\t}\n\n\treturn d.decode()",
+  "\tif d.r.Next() {\n\t\treturn d.decode()\n\t}\n\tif err := d.r.Err(); err != nil {\n\t\treturn nil, err\n\t}\n\treturn nil, ErrNoInput", "", False, "positive branch first, error kept in a local")
+m("eofdepth-refactor-empty-first", "ORD-EOFDEPTH", ["C07"], "refactor", BS,
+  "\t\tif !b.stack.empty() {\n\t\t\t// The input ended before the container we are in did.\n\t\t\treturn &UnexpectedEOFError{b.pos}\n\t\t}\n\t\tb.code = bitcodeEOF\n\t\treturn nil",
+  "\t\tif b.stack.empty() {\n\t\t\tb.code = bitcodeEOF\n\t\t\treturn nil\n\t\t}\n\t\treturn &UnexpectedEOFError{b.pos}", "", False, "branches swapped")
+m("firstwins-refactor-add", "ORD-FIRSTWINS", ["C09", "C11"], "refactor", ST,
+  "\tif id, ok := b.FindByName(symbol); ok {\n\t\treturn id, false\n\t}\n\n\tb.symbols = append(b.symbols, symbol)\n\tid := b.maxImportID + uint64(len(b.symbols))\n\tb.index[symbol] = id\n\n\treturn id, true",
+  "\told, ok := b.FindByName(symbol)\n\tif !ok {\n\t\tb.symbols = append(b.symbols, symbol)\n\t\tid := b.maxImportID + uint64(len(b.symbols))\n\t\tb.index[symbol] = id\n\t\treturn id, true\n\t}\n\treturn old, false",
+  "", False, "negative branch first")
+m("dangle-refactor-nested", "ORD-DANGLE", ["C07"], "refactor", TR,
+  "\t\tif t.ctx.peek() == ctxInList && len(t.annotations) == 0 {\n\t\t\tt.eof = true\n\t\t\treturn true, nil\n\t\t}\n\t\treturn false, &UnexpectedTokenError{\"]\", t.tok.Pos() - 1}",
+  "\t\tif t.ctx.peek() == ctxInList {\n\t\t\tif n := len(t.annotations); n == 0 {\n\t\t\t\tt.eof = true\n\t\t\t\treturn true, nil\n\t\t\t}\n\t\t}\n\t\treturn false, &UnexpectedTokenError{\"]\", t.tok.Pos() - 1}",
+  "", False, "conjunction spelled as nested ifs")
+m("rearm-refactor-helper", "ORD-REARM", ["C12"], "refactor", BW,
+  "\t\tw.bufs.push(&datagram{})\n\t\tw.lstb = NewSymbolTableBuilder(lst.Imports()...)\n",
+  "\t\tnext := NewSymbolTableBuilder(lst.Imports()...)\n\t\tw.lstb = next\n\t\tw.bufs.push(&datagram{})\n", "", False, "re-arm statements reordered")
 
 os.makedirs(os.path.dirname(os.path.abspath(__file__)), exist_ok=True)
 with open(os.path.join(os.path.dirname(os.path.abspath(__file__)), "core.json"), "w") as f:
